@@ -663,9 +663,16 @@ def install(I):
         else:
             d.pres, d.val = np, nv
 
-    def bmc_world(I):
+    def bmc_world(I, d=None, write=False):
         w = I.path.ghost.get('bmc')
-        return w if (w is not None and w.cur is not None) else None
+        if w is None or w.cur is None:
+            return None
+        if d is not None and id(d) in getattr(w, 'frozen_ids', ()):
+            # a datastore the harness declared immutable while the goroutines run (verif_freeze): read directly
+            if write:
+                raise Inconclusive('a goroutine writes a datastore the harness declared immutable (verif_freeze)')
+            return None
+        return w
 
     def ds_name(I, w, d):
         name = w.obj('ds', id(d), init=(d.pres, d.val))
@@ -680,7 +687,7 @@ def install(I):
         d, ctx, k = args
         _sp(I, 'ds.Get', ins)
         kt = keyterm(I, k)
-        w = bmc_world(I)
+        w = bmc_world(I, d)
         if w is not None:
             from .. import bmc
             typed = getattr(I, 'ds_typed', None)
@@ -711,7 +718,7 @@ def install(I):
     def ds_has(I, args, ins):
         d, ctx, k = args
         _sp(I, 'ds.Has', ins)
-        w = bmc_world(I)
+        w = bmc_world(I, d)
         if w is not None:
             from .. import bmc
             pres = I.fresh_bool('ds.present')
@@ -724,7 +731,7 @@ def install(I):
         d, ctx, k, v = args
         _sp(I, 'ds.Put', ins)
         kt, vt = keyterm(I, k), I.bytes_term(v)
-        w = bmc_world(I)
+        w = bmc_world(I, d, write=True)
         if w is not None:
             from .. import bmc
             bmc.rec(I, 'dsmut', ds_name(I, w, d), ((('put', kt, vt),),), ins=ins)
@@ -737,7 +744,7 @@ def install(I):
         d, ctx, k = args
         _sp(I, 'ds.Delete', ins)
         kt = keyterm(I, k)
-        w = bmc_world(I)
+        w = bmc_world(I, d, write=True)
         if w is not None:
             from .. import bmc
             bmc.rec(I, 'dsmut', ds_name(I, w, d), ((('del', kt, None),),), ins=ins)
@@ -767,7 +774,7 @@ def install(I):
         _sp(I, 'ds.Commit', ins)
         ops = list(b.ops)
         b.ops = []
-        w = bmc_world(I)
+        w = bmc_world(I, b.ds, write=True)
         if w is not None:
             from .. import bmc
             bmc.rec(I, 'dsmut', ds_name(I, w, b.ds), (tuple(ops),), ins=ins)
